@@ -355,7 +355,8 @@ type ShimCase struct {
 	Reads       []int  `json:"read_sizes"`
 	Status      int    `json:"status"`
 	ThenBanner  bool   `json:"then_banner"`
-	Filler      string `json:"filler,omitempty"` // what the bytes before <head> are made of (default "p")
+	Filler      string `json:"filler,omitempty"`     // what the bytes before <head> are made of (default "p")
+	Empty       bool   `json:"empty_body,omitempty"` // a response without any body bytes (HEAD, 204, 304, redirects, empty pages)
 }
 
 const startMark, endMark = "<!--START_WEBSOCKET_SHIM-->", "<!--END_WEBSOCKET_SHIM-->"
@@ -383,6 +384,10 @@ func genShim(t *rapid.T) ShimCase {
 	default:
 		c.Pre = 12
 	}
+	if rapid.IntRange(0, 11).Draw(t, "empty") == 0 {
+		c.Empty = true
+		c.Status = rapid.SampledFrom([]int{200, 204, 302, 304, 404}).Draw(t, "emptyStatus")
+	}
 	c.Reads = rapid.SliceOfN(rapid.SampledFrom([]int{1, 3, 6, 7, 100, 512, 1018, 1023, 1024, 1025, 4096, 100000}), 0, 4).Draw(t, "reads")
 	// mostly ASCII; sometimes valid multi-byte UTF-8, characters whose case mapping changes length, or legacy 8-bit bytes
 	c.Filler = rapid.SampledFrom([]string{"p", "p", "p", "\u00e9", "\u0130", "\u212a", "\xe9", "\xff", "<!-- \xc4\xd6 -->", "P"}).Draw(t, "filler")
@@ -391,6 +396,9 @@ func genShim(t *rapid.T) ShimCase {
 
 func (c *ShimCase) body() []byte {
 	var b bytes.Buffer
+	if c.Empty {
+		return nil
+	}
 	if c.Pre >= 0 {
 		f := c.Filler
 		if f == "" {
@@ -467,6 +475,9 @@ func runShim(c *ShimCase) vh.Outcome {
 	}
 	isHTML := strings.Contains(strings.ToLower(c.ContentType), "html")
 	o.NonTrivial = isHTML
+	if c.Empty {
+		o.Classes = append(o.Classes, "empty-body")
+	}
 	var got []byte
 	var hdr http.Header
 	if c.ThenBanner {
